@@ -4,6 +4,7 @@ import ast
 from .. import astutil as A
 from .. import paths as P
 from ..loader import methods
+from . import common as K
 from ..selftest.runner import M, TW, V
 
 PROPERTY = "C18"
@@ -68,6 +69,44 @@ def names_p(fn, expr, P_src):
         vals = local_value(fn, expr.id)
         return bool(vals) and any(v == P_src for v in vals)
     return False
+
+
+def deref_on_path(p, expr, upto):
+    """(value, clean): a local Name is replaced by the value of its last definition on the path before event *upto*
+    (`_ret = f(); return _ret` reads `return f()`), transitively.  clean is False when the name is read between that
+    definition and *upto* (the object could have been used/advanced in between: the two spellings are then not
+    known to be equivalent) or when the last binding is not a plain single-target assignment."""
+    clean = True
+    for _ in range(6):
+        if not isinstance(expr, ast.Name):
+            break
+        defs = [(i, e[1]) for i, e in enumerate(p.ev[:upto]) if e[0] in ("stmt", "partial", "iter", "with")
+                and expr.id in [n for t in A.assigned_targets(e[1]) for n in A.target_names(t)]]
+        if not defs:
+            break
+        i, st = defs[-1]
+        if not (p.ev[i][0] == "stmt" and isinstance(st, ast.Assign) and len(st.targets) == 1 and isinstance(st.targets[0], ast.Name)):
+            return expr, False
+        for k, n in p.exprs():
+            if i < k < upto and any(isinstance(x, ast.Name) and x.id == expr.id for x in A.walk_local(n)):
+                clean = False
+        for e in p.ev[i + 1:upto]:
+            if e[0] == "partial" and any(isinstance(x, ast.Name) and x.id == expr.id for x in A.walk_local(e[1])):
+                clean = False
+        upto, expr = i, st.value
+    return expr, clean
+
+
+def flag_guards(iff, node):
+    """(name, True) when *node* sits in the branch of *iff* that runs when the local flag `name` is true:
+    `if flag: <node>` or `if not flag: ... else: <node>`; else None."""
+    t, pol = A.strip_not(iff.test)
+    if not isinstance(t, ast.Name):
+        return None
+    branch = iff.body if pol else iff.orelse
+    if any(node in list(ast.walk(x)) for x in branch):
+        return t.id
+    return None
 
 
 def check_publish(ctx):
@@ -149,13 +188,14 @@ def check_publish(ctx):
             # accept only under a completion flag set after the loop
             flag_ok = False
             for a in A.ancestors(node):
-                if isinstance(a, ast.If) and isinstance(a.test, ast.Name):
+                flag = flag_guards(a, node) if isinstance(a, ast.If) else None
+                if flag is not None:
                     sets = [s for s in A.walk_local(fn) if isinstance(s, ast.Assign) and any(
-                        isinstance(t, ast.Name) and t.id == a.test.id for t in s.targets)]
-                    trues = [s for s in sets if A.is_const(s.value, True)]
-                    if trues and all(s.lineno > loop.end_lineno and A.enclosing(s, (ast.ExceptHandler,)) is None
-                                     and loop not in list(A.ancestors(s)) for s in trues) \
-                            and any(node in list(ast.walk(x)) for x in a.body):
+                        isinstance(t, ast.Name) and t.id == flag for t in s.targets)]
+                    trues = [s for s in sets if not A.is_const(s.value, False)]
+                    if trues and all(A.is_const(s.value, True) and s.lineno > loop.end_lineno
+                                     and A.enclosing(s, (ast.ExceptHandler,)) is None
+                                     and loop not in list(A.ancestors(s)) for s in trues):
                         flag_ok = True
             if not flag_ok:
                 ok_all = False
@@ -264,23 +304,40 @@ def check_reload(ctx):
     run = ctx.tree.func(MOD, "Cache.run")
     flow = [p for p in A.func_params(run) if p != "self"][0]
     n_cached = 0
+    def returned(p):
+        """(the only Return on the path or None, its value with a local result name dereferenced, clean)"""
+        rets = [(i, e[1]) for i, e in enumerate(p.ev) if e[0] == "stmt" and isinstance(e[1], ast.Return)]
+        if len(rets) != 1:
+            return None, None, True
+        i, r = rets[0]
+        v, clean = deref_on_path(p, r.value, i)
+        return r, v, clean
+
+    def is_self_call(v, meth, args):
+        return isinstance(v, ast.Call) and A.is_self_attr(v.func, meth) and not v.keywords \
+            and [A.src(a) for a in v.args] == args
+
     for p in P.paths_of(run):
-        lits = p.literal_srcs()
-        rets = [s for s in p.stmts() if isinstance(s, ast.Return)]
-        if "self.cache_exists()" in lits:
-            n_cached += 1
+        exists = [pol for t, pol in p.literals() if isinstance(t, ast.Call) and A.is_self_attr(t.func, "cache_exists")
+                  and not t.args and not t.keywords]
+        if not exists:
+            continue
+        ret, val, clean = returned(p)
+        n_cached += 1 if exists[-1] else 0
+        if not clean:
+            ctx.unknown("C18-c", ret, "Cache.run returns the local `%s`, which is read between its definition and the return: "
+                        "cannot tell whether the returned object is still the fresh generator" % A.src(ret.value))
+            continue
+        if exists[-1]:
             uses = [n for e in p.ev if e[0] == "stmt" for n in A.walk_local(e[1]) if isinstance(n, ast.Name) and n.id == flow]
             ctx.check("C18-c", not uses, run, "Cache.run uses the incoming flow on the cache-exists path (`%s`): the upstream would be "
                       "pulled/run although the cache is replayed" % (A.short(A.enclosing(uses[0], (ast.stmt,)), 60) if uses else ""),
                       detail="cached path does not touch the incoming flow", construct="cached-path-uses-flow", path=p)
-            ok = len(rets) == 1 and isinstance(rets[0].value, ast.Call) and A.src(rets[0].value.func) == "self._load_flow" \
-                and not rets[0].value.args and not rets[0].value.keywords
-            ctx.check("C18-c", ok, run, "Cache.run does not return self._load_flow() on the cache-exists path",
+            ctx.check("C18-c", is_self_call(val, "_load_flow", []), run, "Cache.run does not return self._load_flow() on the cache-exists path",
                       detail="cached path returns self._load_flow()", construct="cached-path-return", path=p)
-        elif "not self.cache_exists()" in lits:
-            ok = len(rets) == 1 and isinstance(rets[0].value, ast.Call) and A.src(rets[0].value.func) == "self._dump_flow_and_yield" \
-                and len(rets[0].value.args) == 1 and A.src(rets[0].value.args[0]) == flow
-            ctx.check("C18-c", ok, run, "Cache.run does not return self._dump_flow_and_yield(flow) when there is no cache",
+        else:
+            ctx.check("C18-c", is_self_call(val, "_dump_flow_and_yield", [flow]), run,
+                      "Cache.run does not return self._dump_flow_and_yield(flow) when there is no cache",
                       detail="uncached path returns the writer over the flow", construct="uncached-path-return", path=p)
     ctx.instances_floor("C18-c", n_cached, 1, "cache-exists paths of Cache.run")
     lf = ctx.tree.func(MOD, "Cache._load_flow")
@@ -321,6 +378,16 @@ def check_reload(ctx):
                       detail="loader yields each loaded value", path=p)
 
 
+def tail_after(expr, seqn, idx):
+    """expr is `seqn[idx+1:]` (the lower bound in any linear spelling: idx + 1, 1 + idx)."""
+    if not (isinstance(expr, ast.Subscript) and A.src(expr.value) == seqn and isinstance(expr.slice, ast.Slice)):
+        return False
+    sl = expr.slice
+    if sl.upper is not None or not (sl.step is None or A.is_const(sl.step, 1)) or sl.lower is None:
+        return False
+    return K.linear(sl.lower) == ({idx: 1}, 1)
+
+
 def check_alter(ctx):
     res = ctx.res
     fn = ctx.tree.func(MOD, "Cache.alter_sequence")
@@ -343,7 +410,7 @@ def check_alter(ctx):
         if isinstance(obj, ast.Subscript):
             idx = A.src(obj.slice)
             seqn = A.src(obj.value)
-            ok = len(rest) == 1 and isinstance(rest[0], ast.Starred) and A.src(rest[0].value).replace(" ", "") == "%s[%s+1:]" % (seqn, idx)
+            ok = len(rest) == 1 and isinstance(rest[0], ast.Starred) and tail_after(rest[0].value, seqn, idx)
             ctx.check("C18-d", ok, c, "the Source keeps `%s` after the cache element: it must keep exactly the elements after the filled "
                       "cache (%s[%s+1:]), otherwise upstream elements are run again or downstream ones are lost"
                       % (", ".join(A.src(r) for r in rest), seqn, idx), detail="Source keeps exactly the elements after the cache")
@@ -369,10 +436,10 @@ def check_exists_drop(ctx):
     ce = ctx.tree.func(MOD, "Cache.cache_exists")
     n = 0
     for p in P.paths_of(ce):
-        if "self._recompute" in p.literal_srcs():
+        if any(pol and A.is_self_attr(t, "_recompute") for t, pol in p.literals()):
             n += 1
-            rets = [s for s in p.stmts() if isinstance(s, ast.Return)]
-            ctx.check("C18-e", len(rets) == 1 and A.is_const(rets[0].value, False), ce,
+            rets = [(i, e[1]) for i, e in enumerate(p.ev) if e[0] == "stmt" and isinstance(e[1], ast.Return)]
+            ctx.check("C18-e", len(rets) == 1 and A.is_const(deref_on_path(p, rets[0][1].value, rets[0][0])[0], False), ce,
                       "cache_exists does not return False when recompute is set [%s]" % p.describe(),
                       detail="recompute => cache_exists() is False", construct="recompute-path", path=p)
     reads = [x for x in A.walk_local(ce) if isinstance(x, ast.Attribute) and A.is_self_attr(x, "_recompute")]
